@@ -76,28 +76,7 @@ def run(ctx: Ctx) -> None:
                            msg=f"`{short(bad, 50) if bad is not None else ''}`: the recorded spelling is transformed before it is written, so the text parses back to a different {cname} (e.g. 'long unsigned int' rendered as 'unsigned long int')", node=bad or m_, mod=types, nontrivial=False)
 
     # ---------------------------------------------------------------- R17.10
-    # What a child's format()/format_decl() (or tokfmt) returns is finished text: it may contain any character the parent
-    # writes itself ('&', '*', '(' ...).  A parent that edits that text (replace / split / strip / slicing) edits the child's
-    # characters too (`Reference(...).format().replace("&", "&&", 1)` hits the '&' of a template argument first).  Formatted
-    # text is only concatenated.
-    ctx.rule("R17.10", "text returned by a child's format()/format_decl()/tokfmt is only concatenated, never edited", minimum=0)
-    for cname, cnode in types.classes():
-        for m_ in cnode.body:
-            if not isinstance(m_, ast.FunctionDef):
-                continue
-            for x in ast.walk(m_):
-                edited = None
-                if isinstance(x, ast.Call) and isinstance(x.func, ast.Attribute) and x.func.attr in _TRANSFORM - {"join", "format"}:
-                    edited = x.func.value
-                elif isinstance(x, ast.Subscript) and isinstance(x.ctx, ast.Load):
-                    edited = x.value
-                if edited is None:
-                    continue
-                inner = [c for c in ast.walk(edited) if isinstance(c, ast.Call) and ((isinstance(c.func, ast.Attribute) and c.func.attr in ("format", "format_decl") and not isinstance(c.func.value, ast.Constant))
-                                                                                  or (isinstance(c.func, ast.Name) and c.func.id == "tokfmt"))]
-                if inner:
-                    ctx.ob("R17.10", f"types:{cname}.{m_.name}|`{short(x, 50)}`", False,
-                           msg=f"the text produced by `{short(inner[0], 40)}` is edited afterwards (`{short(x, 60)}`): the edit also hits characters that belong to the child's own rendering, so some types format to text that parses back differently", node=x, mod=types)
+    check_text_not_edited(ctx, "R17.10", types)
 
     cache: Dict[Tuple[str, str], Any] = {}
     total = 0
@@ -361,3 +340,41 @@ def _known():
 
 def _brief(fields: Dict[str, Any]) -> str:
     return ", ".join(f"{k}={v!r}" for k, v in fields.items() if isinstance(v, (bool, list)) or v is None)
+
+
+_TRANSFORM_METHODS = {"split", "rsplit", "replace", "lower", "upper", "strip", "lstrip", "rstrip", "title", "capitalize", "casefold", "swapcase", "translate", "removeprefix",
+                      "removesuffix", "expandtabs", "partition", "rpartition", "splitlines", "center", "ljust", "rjust", "zfill", "encode"}
+
+
+def check_text_not_edited(ctx: Ctx, rid: str, types) -> None:
+    """What a child's format()/format_decl() (or tokfmt) returns is finished text: it may contain any character the parent
+    writes itself ('&', '*', '(' ...) and, for token values, blanks inside string and character literals.  A method that
+    edits that text (replace / split / strip / slicing) edits those characters too.  Formatted text is only concatenated.
+    (Shared with C16 as R16.4: a Value's formatted text re-lexes to its tokens only if nothing is done to it afterwards.)"""
+    ctx.rule(rid, "text returned by a child's format()/format_decl()/tokfmt is only concatenated, never edited", minimum=0)
+    for cname, cnode in types.classes():
+        for m_ in cnode.body:
+            if not isinstance(m_, ast.FunctionDef):
+                continue
+            # locals bound to formatted text (`s = tokfmt(self.tokens)`)
+            held = set()
+            for st in ast.walk(m_):
+                if isinstance(st, ast.Assign) and len(st.targets) == 1 and isinstance(st.targets[0], ast.Name) and _formats(st.value):
+                    held.add(st.targets[0].id)
+            for x in ast.walk(m_):
+                edited = None
+                if isinstance(x, ast.Call) and isinstance(x.func, ast.Attribute) and x.func.attr in _TRANSFORM_METHODS:
+                    edited = x.func.value
+                elif isinstance(x, ast.Subscript) and isinstance(x.ctx, ast.Load):
+                    edited = x.value
+                if edited is None:
+                    continue
+                inner = [c for c in ast.walk(edited) if _formats(c)] or [n_ for n_ in ast.walk(edited) if isinstance(n_, ast.Name) and n_.id in held]
+                if inner:
+                    ctx.ob(rid, f"types:{cname}.{m_.name}|`{short(x, 50)}`", False,
+                           msg=f"the text produced by `{short(inner[0], 40)}` is edited afterwards (`{short(x, 60)}`): the edit also hits characters that belong to the child's own rendering (a '&' of a template argument, blanks inside a string literal), so the text parses or lexes back differently", node=x, mod=types)
+
+
+def _formats(c: ast.AST) -> bool:
+    return isinstance(c, ast.Call) and ((isinstance(c.func, ast.Attribute) and c.func.attr in ("format", "format_decl") and not isinstance(c.func.value, ast.Constant))
+                                        or (isinstance(c.func, ast.Name) and c.func.id == "tokfmt"))
